@@ -376,15 +376,37 @@ parse_spec_b(char * spec)
 #endif /* C11_BUILD_B */
 
 /* ---- one history, in the child ---- */
+/* state of the history being run (it may continue in an exit handler) */
+static const char * h_p;
+static FILE * h_out;
+static char * h_rets;
+static size_t h_nreq, h_cap;
+static int h_resfd, h_at_exit;
+static void history_part(void);
+static void history_finish(void);
+
+/* Registered before the generator is first used: runs after its own exit-time work. */
+static void
+exit_part(void)
+{
+
+	if (!h_at_exit)
+		return;
+	history_part();
+	history_finish();
+	fflush(NULL);
+}
+
 static void
 run_history(struct vh_line * L, int resfd)
 {
 	const char * outfile = vh_tok(L, 1);
 	char * spec = strdup(vh_tok(L, 3));
-	const char * p = vh_tok(L, 4);
-	FILE * out;
-	char * rets;
-	size_t nreq = 0, cap = 1024;
+
+	h_p = vh_tok(L, 4);
+	h_resfd = resfd;
+	h_nreq = 0;
+	h_cap = 1024;
 
 	key = vh_tok_u(L, 2);
 #if defined(C11_BUILD_A)
@@ -396,11 +418,29 @@ run_history(struct vh_line * L, int resfd)
 #else
 	parse_spec_b(spec);
 #endif
-	if ((out = fopen(outfile, "wb")) == NULL)
+	if ((h_out = fopen(outfile, "wb")) == NULL)
 		vh_die("cannot create %s", outfile);
-	rets = vh_xmalloc(cap);
+	h_rets = vh_xmalloc(h_cap);
+	history_part();
+	if (*h_p == '|') {
+		/* the rest of the history happens in the exit handler */
+		h_p++;
+		h_at_exit = 1;
+		return;
+	}
+	history_finish();
+}
 
-	while (*p && strcmp(p, "-") != 0) {
+/* Requests up to the end of the list or to a '|'. */
+static void
+history_part(void)
+{
+	const char * p = h_p;
+	FILE * out = h_out;
+	char * rets = h_rets;
+	size_t nreq = h_nreq, cap = h_cap;
+
+	while (*p && *p != '|' && strcmp(p, "-") != 0) {
 		char * e;
 		size_t len = (size_t)strtoull(p, &e, 10);
 		void * tofree;
@@ -420,14 +460,28 @@ run_history(struct vh_line * L, int resfd)
 		}
 		rets[nreq++] = (rc == 0) ? '0' : (rc == -1) ? 'f' : '?';
 		if (len && fwrite(buf, 1, len, out) != len)
-			vh_die("write to %s failed", outfile);
+			vh_die("write to the output file failed");
 		free(tofree);
 		p = e;
 		if (*p == ',')
 			p++;
 	}
+	h_p = p;
+	h_rets = rets;
+	h_nreq = nreq;
+	h_cap = cap;
+}
+
+static void
+history_finish(void)
+{
+	FILE * out = h_out;
+	char * rets = h_rets;
+	size_t nreq = h_nreq;
+	int resfd = h_resfd;
+
 	if (fclose(out))
-		vh_die("close of %s failed", outfile);
+		vh_die("close of the output file failed");
 	rets[nreq] = '\0';
 	{
 		FILE * r = fdopen(resfd, "w");
@@ -469,8 +523,11 @@ main(void)
 			vh_die("fork");
 		if (pid == 0) {
 			sys_close(pfd[0]);
+			atexit(exit_part);
 			run_history(&L, pfd[1]);
 			fflush(NULL);
+			if (h_at_exit)
+				exit(0);	/* the history ends in the exit handler */
 			_exit(0);
 		}
 		sys_close(pfd[1]);
